@@ -70,6 +70,16 @@ func syncVar(t Term, typ string) types.Object {
 			if isSyncType(x.Obj.Type(), typ) {
 				return x.Obj
 			}
+		case TSel:
+			// a field of a local struct that bundles the synchronisation objects (guard.wg)
+			if tv, ok := x.X.(TVar); ok && tv.Obj != nil && isLocalVar(tv.Obj) && isSyncType(x.Field.Type(), typ) {
+				return x.Field
+			}
+			if ad, ok := x.X.(TAddr); ok {
+				if tv, ok := ad.X.(TVar); ok && tv.Obj != nil && isLocalVar(tv.Obj) && isSyncType(x.Field.Type(), typ) {
+					return x.Field
+				}
+			}
 		}
 		return nil
 	}
